@@ -577,6 +577,16 @@ pub struct SolutionEdge<'a, EntryType: Entry> {
 }
 
 impl<'a, EntryType: Entry> SolutionEdge<'a, EntryType> {
+    /// Returns true if the edge leaves the last AS of its segment.
+    fn starts_at_leaf(&self) -> bool {
+        self.src.ia().is_some() && self.src.ia() == self.segment.path_segment().last_ia()
+    }
+
+    /// Returns true if the edge arrives at the last AS of its segment.
+    fn ends_at_leaf(&self) -> bool {
+        self.dst.ia().is_some() && self.dst.ia() == self.segment.path_segment().last_ia()
+    }
+
     /// Initialize the segment id for the infofield that is created from this edge.
     /// The segment id needs to be set to the beta_i where i is the index of the
     /// first as entry from this segment that will be traversed.
@@ -675,6 +685,17 @@ impl<'a, EntryType: Entry> PathSolution<'a, EntryType> {
     pub fn try_add_edge(&self, e: SolutionEdge<'a, EntryType>) -> Option<Self> {
         if !self.valid_next_seg(e.segment) {
             return None;
+        }
+        // In a path of more than one segment a non-core segment can only be left at its upper end
+        // if it was entered at its leaf (up segment), and entered at its upper end if it is left
+        // at its leaf (down segment). Anything else is a valley and not forwardable.
+        if let Some(last) = self.edges.last() {
+            if last.segment.is_non_core() && !last.starts_at_leaf() {
+                return None;
+            }
+            if e.segment.is_non_core() && !e.ends_at_leaf() {
+                return None;
+            }
         }
         let cost = self.cost + e.edge.weight;
         let current_vertex = e.dst;
